@@ -215,6 +215,7 @@ RULES = [
     ('name-unquoted-fuses-with-keyword',
      lambda f: f.st == 'reparse-fail' and any(
          isinstance(n, (f.ql.CreateExtension, f.ql.AlterExtension, f.ql.DropExtension)) and n.name.name.lower() == 'package'
+         or isinstance(n, f.ql.SetField) and not n.special_syntax and n.name.lower() in ('type', 'annotation')
          for n in f.nodes)),
     ('ddl-statement-argument-unparenthesised',
      lambda f: f.st == 'reparse-fail' and re.search(r"Unexpected keyword '(FOR|GROUP|SELECT|INSERT|UPDATE|DELETE|WITH)'", f.err)
@@ -263,6 +264,7 @@ class Collector:
         self.n_units = 0
         self.n_texts = 0
         self.rejected = collections.Counter()
+        self.bank = None            # c01_slots.SlotBank collecting example trees per (class, field) slot
 
     def text(self, origin, entry, text, modes=None, split=True):
         """run one text through the oracle (per statement / declaration) in the given modes"""
@@ -287,6 +289,12 @@ class Collector:
         if entry == 'sdl':
             modes = [m if m.get('sdlmode') else dict(m, sdlmode=True, unsorted=True) for m in modes]
         ok = True
+        if self.bank is not None:
+            for u in units:
+                try:
+                    self.bank.add(entry, u)
+                except Exception:
+                    pass
         for i, u in enumerate(units):
             c1 = None
             for m in modes:
@@ -451,6 +459,8 @@ def run(ctx: core.Ctx):
     ctx.log('proof stage:', 'ok' if proved else ctx.proof.get('broken'))
 
     col = Collector(ctx)
+    from . import c01_slots
+    col.bank = c01_slots.SlotBank()
     rng = ctx.rng
     t_start = time.time()
 
@@ -605,6 +615,42 @@ def run(ctx: core.Ctx):
                      modes=[SDL_MODES[0]] if entry == 'sdl' else [BLOCK_MODES[0]] if ctx.quick() else None)
     ctx.log(f'command-block subsets of upstream seeds: {n_sub} texts; totals {dict(col.hist)}')
 
+    # (ii-c''') every Expr-capable FIELD of every qlast class (from the field-type introspection) x every statement
+    #          kind and prefix form placed directly in it; example trees come from the texts accepted above
+    fillers = gen.slot_fillers(qlast, g.q['OUT'])
+    fnames_s = sorted(fillers)
+    slot_hist = {}
+    n_slot = 0
+    for sid, entry, tree, path, field, sel in col.bank.slots():
+        sk = sid.rstrip('?')
+        names = fnames_s
+        if ctx.quick():
+            stmt = [n for n in fnames_s if n in ('select', 'select-filter', 'with-select', 'insert', 'update', 'delete',
+                                                 'for', 'group', 'neg', 'not', 'negconst', 'cast', 'detached', 'call-kw')]
+            names = stmt + rng.sample([n for n in fnames_s if n not in stmt], 4)
+        for fname in names:
+            new = c01_slots.fill(tree, path, field, sel, fillers[fname]())
+            if new is None:
+                continue
+            opts_s = {'sdlmode': True, 'unsorted': True} if entry == 'sdl' else {}
+            try:
+                t = gen.safe_text(new, wrap_ddl=True, **opts_s) + (';' if entry == 'block' else '')
+            except Exception:
+                slot_hist.setdefault(sk, [0, 0])[1] += 1
+                continue
+            n_slot += 1
+            ok = col.text(f'slot:{sid}/{fname}', entry, t,
+                          modes=[SDL_MODES[0]] if entry == 'sdl' else [BLOCK_MODES[0]])
+            h = slot_hist.setdefault(sk, [0, 0])
+            h[0 if ok is not None else 1] += 1
+    table = col.bank.table
+    covered = col.bank.covered()
+    slots_no_example = sorted(f'{c}.{f}' for (c, f) in table if (c, f) not in covered)
+    slots_all_rejected = sorted(k for k, (a, r) in slot_hist.items() if a == 0)
+    ctx.log(f'field slots: {len(table)} Expr-capable (class, field) pairs, {len(covered)} with an accepted example, '
+            f'{n_slot} grafts; no example: {len(slots_no_example)}, every graft rejected: {len(slots_all_rejected)}; '
+            f'totals {dict(col.hist)}')
+
     # (ii-d) corpus mutants (tokens) and grafts (expressions) ----------------------------
     n_mut = ctx.budget(900, 30000)
     sample = [rng.choice(bases) for _ in range(n_mut)]
@@ -670,6 +716,9 @@ def run(ctx: core.Ctx):
         'texts_tried': col.n_texts,
         'texts_rejected_by_parser': dict(col.rejected),
         'regression_corpus_texts': n_reg,
+        'field_slots': {'expr_capable_class_fields': len(table), 'with_accepted_example': len(covered),
+                        'grafts': n_slot, 'no_example': slots_no_example,
+                        'every_graft_rejected': slots_all_rejected},
         'ddl_matrix': {'core_texts': n_core, 'extended_texts_run': n_ext, 'matrix_size': len(seen_txt)},
         'open_finding_witness_texts': n_wit,
         'open_finding_witness_outcomes': dict(wcol.hist),
